@@ -407,7 +407,7 @@ package scan
 //@   props C01 C18 C02 C07 C13 C17 C19 C04 C05 C08 C12 C11
 //@   modifies nothing
 //@   ensures ret == nil ==> len(ports) > 0
-//@   loop 0 invariant seen: 0 <= rangeindex + 1 && (forall k int :: 0 <= k && k <= rangeindex ==> ports[k].StartPort <= ports[k].EndPort)
+//@   loop 0 invariant seen: 0 <= nextindex0 && (forall k int :: 0 <= k && k < nextindex0 ==> ports[k].StartPort <= ports[k].EndPort)
 //@   ensures ordered: ret == nil ==> (forall k int :: 0 <= k && k < len(ports) ==> ports[k].StartPort <= ports[k].EndPort)
 //@ func (*portGenerator).Ports
 //@   sig arg0, ctx, r
@@ -423,13 +423,13 @@ package scan
 //@   observe newRangeIterator, (*math/big.Int).Int64, Next
 //@   requires r != nil && (forall k int :: 0 <= k && k < len(r.Ports) ==> r.Ports[k].StartPort <= r.Ports[k].EndPort)
 //@   loop 0 modifies nothing
-//@   at call newRangeIterator#0 before: assert 0 <= rangeindex + 1 && rangeindex + 1 < len(r.Ports) && r.Ports[rangeindex + 1].StartPort <= r.Ports[rangeindex + 1].EndPort
-//@   loop 0 row done:   [close out] when rangeindex + 1 >= len(r.Ports) -> exit
-//@   loop 0 row enter:  [call newRangeIterator(bind_n) as (nit, e)] when rangeindex + 1 < len(r.Ports) && n == r.Ports[rangeindex + 1].EndPort - r.Ports[rangeindex + 1].StartPort + 1 && e == nil -> loop 1
+//@   at call newRangeIterator#0 before: assert 0 <= nextindex0 && nextindex0 < len(r.Ports) && r.Ports[nextindex0].StartPort <= r.Ports[nextindex0].EndPort
+//@   loop 0 row done:   [close out] when nextindex0 >= len(r.Ports) -> exit
+//@   loop 0 row enter:  [call newRangeIterator(bind_n) as (nit, e)] when nextindex0 < len(r.Ports) && n == r.Ports[nextindex0].EndPort - r.Ports[nextindex0].StartPort + 1 && e == nil -> loop 1
 //@   loop 1 modifies big(it.I), it.stop, it.e, it.last
 //@   loop 1 invariant iter: it != nil && RI(it) && 1 <= big(it.I) && big(it.I) <= big(it.rangeLimit)
 //@   loop 1 invariant base: basePort == portRange.StartPort - 1 && big(it.rangeLimit) == portRange.EndPort - portRange.StartPort + 1
-//@                          && 0 <= rangeindex + 1 && rangeindex + 1 < len(r.Ports) && portRange == r.Ports[rangeindex + 1]
+//@                          && 0 <= nextindex0 && nextindex0 < len(r.Ports) && portRange == r.Ports[nextindex0]
 //@   at call (*pkg/scan.rangeIterator).Next#0 after: use orbit_range(big(it.G), big(it.P), it.e)
 //@   loop 1 row port:   [call Int64(_) as (v) ; send? out bind_x ; call Next(it) as (more)]
 //@                         when more && v == pre(big(it.I)) && istype(x, WrapPort) && astype(x, WrapPort) == portRange.StartPort - 1 + v
